@@ -303,6 +303,7 @@ func mutationsFor(q *pdkg.GossipPacket) []string {
 		// the alterations of fields the signature does not cover come last (they are accepted today)
 		muts = append(muts, "t-threshold", "t-epoch", "t-timeout", "t-catchup", "t-period", "t-scheme", "t-genesis",
 			"t-beacon", "t-leader-nil", "t-remainer-sig", "t-drop-last", "t-add-leaver", "t-swap-lists",
+			"t-shift-remaining-to-leaving", "t-shift-leaving-to-remaining", "t-shift-joining-to-remaining", "t-shift-remaining-to-joining",
 			"t-joiner-key", "t-seed", "t-leader-key", "t-remainer-key")
 	}
 	if q.GetExecute() != nil {
@@ -387,6 +388,27 @@ func (h *hist) applyMutation(p *pdkg.GossipPacket, m string) *pdkg.GossipPacket 
 		}
 	case "t-add-leaver":
 		t.Leaving = append(t.Leaving, proto.Clone(other.part).(*pdkg.Participant))
+	case "t-shift-remaining-to-leaving":
+		// move the list boundary: the last remainer becomes the first leaver (order of the entries kept)
+		if n := len(t.Remaining); n > 1 {
+			t.Leaving = append([]*pdkg.Participant{t.Remaining[n-1]}, t.Leaving...)
+			t.Remaining = t.Remaining[:n-1]
+		}
+	case "t-shift-leaving-to-remaining":
+		if len(t.Leaving) > 0 {
+			t.Remaining = append(t.Remaining, t.Leaving[0])
+			t.Leaving = t.Leaving[1:]
+		}
+	case "t-shift-joining-to-remaining":
+		if n := len(t.Joining); n > 0 {
+			t.Remaining = append([]*pdkg.Participant{t.Joining[n-1]}, t.Remaining...)
+			t.Joining = t.Joining[:n-1]
+		}
+	case "t-shift-remaining-to-joining":
+		if len(t.Remaining) > 1 {
+			t.Joining = append(t.Joining, t.Remaining[0])
+			t.Remaining = t.Remaining[1:]
+		}
 	case "t-swap-lists":
 		t.Joining, t.Remaining = t.Remaining, t.Joining
 	case "x-time":
